@@ -723,3 +723,13 @@ B('c16-hook-attr-created-in-init', ['C16'], edits=[
   (LEX, "    raise ParserError(f'Illegal character {t.value[0]}')", "    raise ParserError(f'Illegal character {t.value[0]} (depth {t.lexer.depth_hint})')"),
   (SQP, "        self.parse_cache = parse_cache\n", "        self.parse_cache = parse_cache\n        self._late = True\n"),
   (SQP, "            outputdir=output_dir)\n\n        self.yacc", "            outputdir=output_dir)\n        self.lex.depth_hint = 0\n\n        self.yacc")])
+
+# ---- C14.R4 bounds tests
+P('C14-B', 'C14', 'C14.R4')
+_DG = "        if len(container) > key:\n            del container[key]"
+M('c14-del-excludes-last', 'C14', 'C14.R4', FUN, _DG, "        if len(container) - 1 > key:\n            del container[key]")
+M('c14-del-nonnegative-only', 'C14', 'C14.R4', FUN, _DG, "        if 0 <= key < len(container):\n            del container[key]")
+M('c14-del-len-ge', 'C14', 'C14.R4', FUN, _DG, "        if key > -len(container) and key < len(container):\n            del container[key]")
+B('c14-del-two-sided-exact', 'C14', FUN, _DG, "        if -len(container) <= key < len(container):\n            del container[key]")
+B('c14-del-flipped', 'C14', FUN, _DG, "        if key < len(container):\n            del container[key]")
+B('c14-del-le-minus-one', 'C14', FUN, _DG, "        if key <= len(container) - 1:\n            del container[key]")
